@@ -12,6 +12,7 @@ from __future__ import annotations
 
 import itertools
 import random
+import re
 
 from .. import structs
 from ..common import Run
@@ -26,6 +27,10 @@ KINDS = ["uint8 {n};", "uint16 {n};", "uint64 {n};", "int24 {n};", "char {n};", 
          "E8 {n}[2];", "E24 {n}[2];", "void {n};", "wchar {n}[2];", "uint8 {n}[p0 & 3];", "char {n}[];"]
 
 
+def _noaddr(text: str) -> str:
+    return re.sub(r" at 0x[0-9a-fA-F]+", "", text)         # object addresses are never compared
+
+
 def sizes_of(v):
     return dict(v.__dict__.get("_sizes") or {})
 
@@ -38,6 +43,11 @@ def load_both(text, endian, align, pointer, compiled, then=None):
         elif step[0] == "warm":
             try:
                 cs.resolve("main")(bytes.fromhex(step[1]))
+            except Exception:  # noqa: BLE001
+                pass
+        elif step[0] == "warmfirst":       # parse the twin structure `first` before `main` is used
+            try:
+                cs.resolve("first")(bytes.fromhex(step[1]))
             except Exception:  # noqa: BLE001
                 pass
         else:
@@ -73,6 +83,9 @@ def compare_readers(text, endian, align, pointer, datas, then=None):
         if ka[0] == "ok" and kb[0] == "ok":
             if ka != kb:
                 probs.append({"what": "values / consumed bytes", "data": d.hex(), "observed": repr(ka)[:400], "expected": repr(kb)[:400]})
+            elif _noaddr(repr(ra[1])) != _noaddr(repr(rb[1])):
+                # equal integers, but members of different enum / flag / pointer classes
+                probs.append({"what": "values (member classes)", "data": d.hex(), "observed": repr(ra[1])[:400], "expected": repr(rb[1])[:400]})
             else:
                 # "recorded sizes for every field that occupies bytes": zero-size entries (void, empty arrays) are not compared
                 sa = {k: v for k, v in sizes_of(ra[1]).items() if v}
@@ -145,6 +158,21 @@ def check(run: Run) -> None:
                     explained.add(id(it))
                 run.report("C03/" + probs[0]["what"].split(" ")[0] + ("/aligned" if align else ""), {**c.describe(), "ops": [{"op": "compiled vs interpreted", "problems": probs[:3]}]})
 
+    # two structures of one cstruct object with the same member names and layout whose members are of different enum / flag / pointer classes
+    TWINS = ["enum Color : uint8 { RED = 1, GREEN = 2 }; enum Shape : uint8 { ROUND = 1, SQUARE = 2 }; struct first { Color kind; uint8 v; Color ks[2]; }; struct main { Shape kind; uint8 v; Shape ks[2]; };",
+             "flag FA : uint16 { FA_X = 1, FA_Y = 2 }; flag FB : uint16 { FB_P = 1, FB_Q = 2 }; struct first { FA f; uint16 t; }; struct main { FB f; uint16 t; };",
+             "struct small { uint8 a; }; struct large { uint32 a; uint32 b; }; struct first { small *p; uint8 k; }; struct main { large *p; uint8 k; };"]
+    for text in TWINS:
+        for order in (0, 1):
+            datas = [bytes([1, 2, 1, 2, 0, 0, 0, 0, 9, 9, 9, 9, 9, 9, 9, 9]), bytes([2, 7, 2, 1, 4, 0, 0, 0, 1, 2, 3, 4, 5, 6, 7, 8])]
+            warm = [("warmfirst", datas[0].hex())] if order else []
+            n_oracle += len(datas)
+            probs = compare_readers(text, "<", False, "uint16", datas, then=warm)
+            if probs:
+                failures += 1
+                run.report("C03/" + probs[0]["what"].split(" ")[0] + "/twin-structures", {"definition": text, "cstruct_kwargs": {"endian": "<", "pointer": "uint16"}, "load_kwargs": {"compiled": True, "align": False},
+                           "history": [list(w) for w in warm], "ops": [{"op": "compiled vs interpreted", "problems": probs[:3]}]})
+
     # the byte order is read from the cstruct object at parse time: switch it after loading (and after a first parse)
     n_switch = 0
     sw_texts = [t for t in texts if " : " in t][:: 7][:40] + texts[-40:]
@@ -214,7 +242,7 @@ def replay(rep: dict) -> int:
     c = F.replay_case(rep)
     probs = rep["ops"][0].get("problems") or []
     datas = [bytes.fromhex(p["data"]) for p in probs if "data" in p] or [bytes(range(1, 65))]
-    then = [(h[1], h[2]) if h[0] == "load_align" else tuple(h) for h in c.history if h[0] in ("load_align", "set_endian", "warm")]
+    then = [(h[1], h[2]) if h[0] == "load_align" else tuple(h) for h in c.history if h[0] in ("load_align", "set_endian", "warm", "warmfirst")]
     now = compare_readers(c.text, c.endian, c.align, c.pointer, datas, then=then)
     print("compiled vs interpreted:", now or "equivalent on the replayed inputs")
     return 1 if now else 0
